@@ -133,12 +133,13 @@ _c03 = [("tx_input", "hash: all bytes; index: all u32", ["TransactionInput::to_b
         ("redeemer_enc", "6 tags; index, memory, steps all u64", ["Redeemer::to_bytes"]),
         ("size_bounds", "constructor input length 0..34", ["AssetName::new", "Ipv4::new", "Ipv6::new"])]
 PROPS["C03"] = dict(
-    bounds="shapes: transaction input, ADA-only value (and empty bundle == absent), legacy enterprise output, certificate forms 0,1,2,4,7,8,11 (thorough: 14-18) with both credential kinds; every scalar leaf over its full range, hash bytes symbolic",
+    bounds="integers (E2): BigInt / Plutus-data integer form and head width for every mathematical integer; shapes (E1): transaction input, ADA-only value (and empty bundle == absent), legacy enterprise output, certificate forms 0,1,2,4,7,8,11 (thorough: 14-18) with both credential kinds; every scalar leaf over its full range, hash bytes symbolic",
     assumptions=["the reference encoder (kani/src/refcbor.rs) is written from RFC 8949 and the Conway CDDL and shares no code with CSL or cbor_event",
                  "types outside the shape list (transaction body, protocol parameter updates, governance actions, metadata, Plutus data trees, blocks) and builder outputs as a whole are outside the bound"],
     # harnesses that do not finish under the memory/time caps on this machine (value_1x2, value_2x1, output_legacy_datahash, output_inline_datum,
     # output_script_ref_and_datahash, small_structs, cert_votes, withdrawals_and_mint, redeemer_enc, size_bounds: CBMC out of memory at 10 GB or > 20 min)
     # are kept in kani/src/c03.rs but are not part of the claim
+    e2=["c03"],
     e1=[J("c03_" + n, bound=b, encodes=e, unwind_fn=HL3, mem_gb=10, timeout_s=1500, tier=("quick" if n in ("tx_input", "value_ada", "output_legacy", "cert_stake_reg_dereg", "cert_delegations") else "thorough"))
         for n, b, e in _c03 if n in ("tx_input", "value_ada", "output_legacy", "cert_stake_reg_dereg", "cert_delegations", "cert_governance")],
 )
